@@ -1,6 +1,225 @@
-//! `skav faults`: exhaustive truncation / bit-flip enumeration against the real loaders (C19).
-use serde_json::{json, Value};
+//! `skav faults <file.skf> <mode> [n] [seed] [threads]`: truncations and single-bit flips of a
+//! valid .skf against the real loaders (C19).
+//!   mode = all     : every proper prefix and every single-bit flip
+//!   mode = sample  : n sampled flips (every region class covered) + every 17th prefix
+//!   mode = list    : like all, and every fault is reported individually (small files)
+//! Each damaged copy is opened the way every subcommand does (u64 loader, then u128 loader);
+//! outcome = rejected | same (decodes to exactly the original k, strand mode, names, k-mers,
+//! bases) | different.
 
-pub fn run(_args: &[String]) -> Value {
-    json!({"todo": true})
+use crate::ops::try_load;
+use serde_json::{json, Value};
+use std::sync::{Arc, Mutex};
+
+#[derive(Clone, Copy, PartialEq, Eq, Hash, Debug)]
+enum Region {
+    StreamId,
+    ChunkType,
+    ChunkLen,
+    Crc,
+    Payload,
+}
+
+fn region_name(r: Region) -> &'static str {
+    match r {
+        Region::StreamId => "id",
+        Region::ChunkType => "type",
+        Region::ChunkLen => "len",
+        Region::Crc => "crc",
+        Region::Payload => "pay",
+    }
+}
+
+/// Classify every byte of a snappy frame-format file: (region, frame number; 0 = stream id)
+fn classify(data: &[u8]) -> Vec<(Region, usize)> {
+    let mut out = vec![(Region::Payload, 0usize); data.len()];
+    let mut i = 0;
+    let mut frame = 0;
+    while i + 4 <= data.len() {
+        let ty = data[i];
+        let len = data[i + 1] as usize | (data[i + 2] as usize) << 8 | (data[i + 3] as usize) << 16;
+        let end = usize::min(i + 4 + len, data.len());
+        if ty == 0xff {
+            for x in i..end {
+                out[x] = (Region::StreamId, 0);
+            }
+        } else {
+            frame += 1;
+            out[i] = (Region::ChunkType, frame);
+            for x in i + 1..i + 4 {
+                out[x] = (Region::ChunkLen, frame);
+            }
+            for x in i + 4..end {
+                out[x] = (if x < i + 8 { Region::Crc } else { Region::Payload }, frame);
+            }
+        }
+        i = end;
+    }
+    out
+}
+
+fn content_key(t: &Value) -> String {
+    json!([t["k"], t["rc"], t["names"], t["rows"]]).to_string()
+}
+
+fn outcome(path: &str, orig: &str) -> (&'static str, String) {
+    // what every subcommand does: try 64 bits, then 128 bits
+    let a = try_load(path, 64);
+    let acc = if a["ok"].as_bool().unwrap_or(false) {
+        a
+    } else {
+        let b = try_load(path, 128);
+        if b["ok"].as_bool().unwrap_or(false) {
+            b
+        } else {
+            return ("rejected", b["err"].as_str().unwrap_or("").chars().take(60).collect());
+        }
+    };
+    if content_key(&acc["table"]) == orig {
+        ("same", String::new())
+    } else {
+        ("different", String::new())
+    }
+}
+
+pub fn run(args: &[String]) -> Value {
+    let file = &args[0];
+    let mode = args.get(1).map(|s| s.as_str()).unwrap_or("all");
+    let n: usize = args.get(2).and_then(|s| s.parse().ok()).unwrap_or(5000);
+    let seed: u64 = args.get(3).and_then(|s| s.parse().ok()).unwrap_or(1);
+    let threads: usize = args.get(4).and_then(|s| s.parse().ok()).unwrap_or(8);
+    let data = std::fs::read(file).expect("read skf");
+    let regions = classify(&data);
+    let pristine = {
+        let a = try_load(file, 64);
+        if a["ok"].as_bool().unwrap_or(false) { a } else { try_load(file, 128) }
+    };
+    if !pristine["ok"].as_bool().unwrap_or(false) {
+        return json!({"error": "pristine file does not load"});
+    }
+    let orig = content_key(&pristine["table"]);
+
+    // fault list: (kind 0=trunc / 1=flip, offset, bit)
+    let mut faults: Vec<(u8, usize, u8)> = Vec::new();
+    if mode == "sample" {
+        let mut x = seed.wrapping_mul(0x9E37_79B9_7F4A_7C15) | 1;
+        let mut next = || {
+            x ^= x << 13;
+            x ^= x >> 7;
+            x ^= x << 17;
+            x
+        };
+        // all non-payload bytes are few: take all of them; payload sampled
+        for (off, (r, _)) in regions.iter().enumerate() {
+            if *r != Region::Payload {
+                for bit in 0..8 {
+                    faults.push((1, off, bit));
+                }
+            }
+        }
+        for _ in 0..n {
+            let off = (next() % data.len() as u64) as usize;
+            faults.push((1, off, (next() % 8) as u8));
+        }
+        let mut cut = 0;
+        while cut < data.len() {
+            faults.push((0, cut, 0));
+            cut += 1 + (next() % 33) as usize;
+        }
+        // the last 64 prefixes exactly
+        for cut in data.len().saturating_sub(64)..data.len() {
+            faults.push((0, cut, 0));
+        }
+    } else {
+        for cut in 0..data.len() {
+            faults.push((0, cut, 0));
+        }
+        for off in 0..data.len() {
+            for bit in 0..8 {
+                faults.push((1, off, bit));
+            }
+        }
+    }
+
+    faults.sort();
+    faults.dedup();
+    let faults = Arc::new(faults);
+    let results: Arc<Mutex<Vec<(usize, &'static str, String)>>> = Arc::new(Mutex::new(Vec::new()));
+    let chunk = (faults.len() + threads - 1) / threads;
+    let dir = if std::path::Path::new("/dev/shm").is_dir() { "/dev/shm" } else { "/tmp" };
+    let mut handles = Vec::new();
+    for t in 0..threads {
+        let faults = Arc::clone(&faults);
+        let results = Arc::clone(&results);
+        let data = data.clone();
+        let orig = orig.clone();
+        let tmp = format!("{}/skav-fault-{}-{}.skf", dir, std::process::id(), t);
+        handles.push(std::thread::spawn(move || {
+            let lo = t * chunk;
+            let hi = usize::min(lo + chunk, faults.len());
+            let mut local = Vec::new();
+            for idx in lo..hi {
+                let (kind, off, bit) = faults[idx];
+                let damaged: Vec<u8> = if kind == 0 {
+                    data[..off].to_vec()
+                } else {
+                    let mut d = data.clone();
+                    d[off] ^= 1 << bit;
+                    d
+                };
+                std::fs::write(&tmp, &damaged).expect("write damaged copy");
+                let (o, why) = outcome(&tmp, &orig);
+                local.push((idx, o, why));
+            }
+            let _ = std::fs::remove_file(&tmp);
+            results.lock().unwrap().extend(local);
+        }));
+    }
+    for h in handles {
+        h.join().expect("fault worker");
+    }
+    let mut res = results.lock().unwrap().clone();
+    res.sort_by_key(|r| r.0);
+
+    // aggregate per (kind, region, frame)
+    use std::collections::BTreeMap;
+    let mut agg: BTreeMap<(String, String, usize), (u64, u64, u64, u64, i64)> = BTreeMap::new();
+    let mut listed: Vec<Value> = Vec::new();
+    for (idx, o, why) in res.iter() {
+        let (kind, off, bit) = faults[*idx];
+        let (reg, frame) = if kind == 0 {
+            if off < regions.len() { regions[off] } else { (Region::Payload, 0) }
+        } else {
+            regions[off]
+        };
+        let key = (if kind == 0 { "trunc".to_string() } else { "flip".to_string() }, region_name(reg).to_string(), frame);
+        let e = agg.entry(key).or_insert((0, 0, 0, 0, -1));
+        e.0 += 1;
+        match *o {
+            "rejected" => e.1 += 1,
+            "same" => e.2 += 1,
+            _ => {
+                e.3 += 1;
+                if e.4 < 0 {
+                    e.4 = off as i64 * 8 + bit as i64;
+                }
+            }
+        }
+        if mode == "list" || *o != "rejected" {
+            if mode == "list" || listed.len() < 2000 {
+                listed.push(json!({"ev": "fault", "kind": if kind == 0 { "trunc" } else { "flip" }, "off": off, "bit": bit,
+                                   "region": region_name(reg), "frame": frame, "outcome": o, "why": why, "panic": ""}));
+            }
+        }
+    }
+    let aggs: Vec<Value> = agg
+        .iter()
+        .map(|((kind, reg, frame), (n, rej, same, diff, first))| {
+            json!({"ev": "fault.agg", "kind": kind, "region": reg, "frame": frame, "n": n, "rejected": rej,
+                   "same": same, "different": diff, "first_diff": first, "panic": ""})
+        })
+        .collect();
+    let nframes = regions.iter().map(|r| r.1).max().unwrap_or(0);
+    json!({"file_len": data.len(), "frames": nframes, "faults": faults.len(), "agg": aggs, "listed": listed,
+           "k": pristine["table"]["k"], "ksize": pristine["table"]["ksize"]})
 }
